@@ -195,6 +195,22 @@ func c02Cells(tier string) []Cell {
 		}
 	}
 
+	// Two DIFFERENT keys with the SAME xxhash64 (constructed): a collision may cost a miss in the backend,
+	// but a Get must never return the other key's value or error.
+	for front := 0; front < 3; front++ {
+		for _, su := range []bool{false, true} {
+			for _, sr := range []bool{false, true} {
+				for _, init := range []string{"AA", "SA", "SS", "TA"} {
+					for _, sc := range []string{"o", "f", "of"} {
+						c := FCfg{Front: front, SU: su, SR: sr, MS: true, Init: init, FailC: "00", Script: sc, Collide: true,
+							Threads: [][]GOp{{{Key: 0}}, {{Key: 1}}}}
+						cells = append(cells, Cell{ID: c.ID()})
+					}
+				}
+			}
+		}
+	}
+
 	return cells
 }
 
